@@ -43,7 +43,7 @@ def main(tier):
              "exit-0 build command every target in the requested closure equals the from-scratch evaluation",
         assumptions=["sources are not edited while a command runs", "flat single-directory worlds",
                      "graphs: curated mechanisms + (thorough) all rooted DAGs with <=3 targets, <=2 sources"],
-        budget_s=45 if tier == "quick" else 3000)
+        budget_s=900 if tier == "quick" else 6000)
 
 
 def replay(path):
